@@ -319,3 +319,35 @@ func specFrameOK(data []byte) bool {
 //@ func DecodeOwnedHSMSPayload
 //@ ensures [accept] (result1 == nil) == (len(payload) >= 10 && len(payload) <= 16777215 && payload[4] == 0 && specValidSType(payload[5]))
 //@ ensures [data]   result1 == nil && payload[5] == 0 ==> specIsData(result0) && specOwned(result0.(*DataMessage).body, payload[10:])
+
+// ====================================================================================================
+// C07 / C20: the send paths. Shared state (the logical connection state, the current generation) may change
+// at any time, so every read of it returns an arbitrary value; the contracts say what a call does given
+// what it OBSERVED. zzCalls("x") is the number of times the call performed operation x.
+// ====================================================================================================
+
+func zzCalls(name string) int { panic("spec only") }
+
+//@ func (*connection).IsSelected
+//@ observe IsSelected
+
+//@ func (*connection).dropNotSelected
+//@ requires c != nil
+//@ emits hsms.(*ConnectionMetrics).incDataMsgDropNotSelected
+//@ ensures [once] zzCalls("hsms.(*ConnectionMetrics).incDataMsgDropNotSelected") == 1
+
+//@ func isCountedSendErr
+//@ ensures [ns] err == ErrNotSelectedState ==> !result
+//@ ensures [cc] err == ErrConnClosed ==> !result
+
+//@ func (*connection).writeFrame
+//@ requires c != nil && e != nil && msg != nil
+//@ emits hsms.(transport).Write, hsms.(*ConnectionMetrics).incDataMsgSend, hsms.(*connection).dropNotSelected, hsms.(*connection).TCPDown, IsSelected:true, IsSelected:false
+//@ ensures [gate]  specIsData(msg) && zzCalls("IsSelected:false") > 0 ==>
+//@                 zzCalls("hsms.(transport).Write") == 0 && result == ErrNotSelectedState && zzCalls("hsms.(*connection).dropNotSelected") == 1
+//@ ensures [ctl]   !specIsData(msg) ==> zzCalls("hsms.(*connection).dropNotSelected") == 0 && zzCalls("hsms.(*ConnectionMetrics).incDataMsgSend") == 0
+//@ ensures [once]  zzCalls("hsms.(transport).Write") <= 1
+//@ ensures [ok]    result == nil ==> zzCalls("hsms.(transport).Write") == 1
+//@ ensures [sent]  zzCalls("hsms.(*ConnectionMetrics).incDataMsgSend") == 1 ==> specIsData(msg) && result == nil && zzCalls("hsms.(transport).Write") == 1
+//@ ensures [cnt]   specIsData(msg) && result == nil ==> zzCalls("hsms.(*ConnectionMetrics).incDataMsgSend") == 1
+//@ ensures [drop]  zzCalls("hsms.(*connection).dropNotSelected") <= 1 && (zzCalls("hsms.(*connection).dropNotSelected") == 1 ==> result == ErrNotSelectedState && zzCalls("hsms.(transport).Write") == 0)
